@@ -2,6 +2,7 @@
 dict(src=..., files=[(path, content)...] (optional), kind=..., sched=..., budget=...)."""
 import random, itertools
 import genprog
+import pstreams2 as P2
 from genprog import bn, Gen, Scope, render
 
 T, F = 'সত্য', 'মিথ্যা'
@@ -133,6 +134,11 @@ def c01_cases(rng, tier):
             if i < k - 1: toks.append(ops[i])
         e = ' '.join(toks)
         cases.append({'decl': decl, 'exprs': [e, '(' + e + ')'], 'tree': e, 'kind': 'chain'})
+    # calls whose arguments are spelled like the callee's parameters; + on lists yields a new list
+    for e in P2.arg_exprs(rng, 40 if tier != 'thorough' else 300):
+        cases.append({'decl': P2.ARG_DECL, 'exprs': [e, '(' + e + ')'], 'tree': e, 'kind': 'argbind'})
+    for e in P2.concat_identity_exprs():
+        cases.append({'decl': decl + ['ফাং একই(x) { ফেরত x; } ফেরত;'], 'exprs': [e, '(' + e + ')'], 'tree': e, 'kind': 'concat-identity'})
     return cases
 
 
@@ -195,6 +201,8 @@ def c02_cases(rng, tier):
     for c in ['১', '"a"', '[]', 'শূ', '@{}']:
         cases.append({'src': prog(['নাম শূ;', 'দেখাও "আগে";', 'যদি %s {' % c, '    দেখাও "ভিতরে";', '}', 'দেখাও "পরে";']), 'alone': None, 'kind': 'nonbool'})
         cases.append({'src': prog(['নাম শূ;', 'যদি মিথ্যা {', '} অথবা যদি %s {' % c, '    দেখাও "ভিতরে";', '}', 'দেখাও "পরে";']), 'alone': None, 'kind': 'nonbool'})
+    for src in P2.repeated_chain_programs(rng, 120 if tier != 'thorough' else 800):
+        cases.append({'src': src, 'alone': None, 'kind': 'repeated-chain'})
     return cases
 
 
@@ -274,6 +282,8 @@ def c03_cases(rng, tier):
     for s in [['থামাও;'], ['আবার;'], ['ফাং ফ() {', '    থামাও;', '} ফেরত;', 'লুপ {', '    ফ();', '    থামাও;', '} আবার;'],
               ['ফাং ফ() {', '    আবার;', '} ফেরত;', 'নাম ক = ০;', 'লুপ {', '    ক = ক + ১;', '    যদি ক > ২ {', '        থামাও;', '    }', '    ফ();', '} আবার;']]:
         cases.append({'src': prog(['দেখাও "আগে";'] + s + ['দেখাও "পরে";']), 'kind': 'stray'})
+    for src in P2.loop_depth_programs(rng, 60 if tier != 'thorough' else 400):
+        cases.append({'src': src, 'kind': 'loop-depths', 'budget': 60000})
     return cases
 
 
@@ -320,6 +330,11 @@ def c05_cases(rng, tier):
                                    'ফাং গভীর(ন) {', '    যদি ন <= ০ {', '        ফেরত ০;', '    }', '    ফেরত ১ + গভীর(ন - ১);', '} ফেরত;', 'দেখাও গভীর(%s);' % bn(d)]), 'kind': 'recursion', 'budget': 400000})
     cases.append({'src': prog(['ফাং জোড়(ন) {', '    যদি ন == ০ {', '        ফেরত সত্য;', '    }', '    ফেরত বিজোড়(ন - ১);', '} ফেরত;',
                                'ফাং বিজোড়(ন) {', '    যদি ন == ০ {', '        ফেরত মিথ্যা;', '    }', '    ফেরত জোড়(ন - ১);', '} ফেরত;', 'দেখাও জোড়(১০);', 'দেখাও জোড়(৭);']), 'kind': 'mutual'})
+    for src in P2.arg_binding_programs(rng, 60 if tier != 'thorough' else 400):
+        cases.append({'src': src, 'kind': 'argbind'})
+    for src in P2.loop_depth_programs(rng, 60 if tier != 'thorough' else 400):
+        cases.append({'src': src, 'kind': 'loop-depths', 'budget': 60000})
+    cases += P2.callee_alloc_programs()
     return cases
 
 
@@ -338,7 +353,7 @@ def c04_cases(rng, tier):
                 k = rng.random()
                 x = rng.choice(names)
                 val[0] += 1
-                if k < 0.25: lines.append('    ' * depth + 'নাম %s = %s;' % (x, bn(val[0])))
+                if k < 0.25: lines.append('    ' * depth + 'নাম %s = %s;' % (x, bn(val[0]) if rng.random() < 0.7 else rng.choice(['[%s]', '@{"k" -> %s,}', '[[%s]]']) % bn(val[0])))
                 elif k < 0.3: lines.append('    ' * depth + 'নাম %s;' % x)
                 elif k < 0.5: lines.append('    ' * depth + '%s = %s;' % (x, bn(val[0])))
                 elif k < 0.75: lines.append('    ' * depth + 'দেখাও %s;' % x)
@@ -376,6 +391,9 @@ def c04_cases(rng, tier):
         block(0, [rng.randint(6, 25)])
         for x in names: lines.append('দেখাও %s;' % x)
         cases.append({'src': prog(lines), 'kind': 'scopes'})
+    for src in P2.arg_binding_programs(rng, 40 if tier != 'thorough' else 300):
+        cases.append({'src': src, 'kind': 'argbind'})
+    cases += P2.shadow_gc_programs(rng, 40 if tier != 'thorough' else 300)
     return cases
 
 
@@ -403,8 +421,14 @@ def c06_cases(rng, tier):
             elif k < 0.95: lines.append('গ[০] = গ;' if rng.random() < 0.2 else 'গ[০] = [%s];' % v)
             else: lines.append('ঘ["missing"]["x"] = ১;' if rng.random() < 0.3 else 'ক[১][৯] = ১;')
             if 'গ[০] = গ;' in lines: break        # cyclic value: printing it would not terminate
+            if rng.random() < 0.08: lines += P2.record_reuse_lines(rng)
+            if rng.random() < 0.08: lines += ['নাম ঝ = %s + %s;' % (rng.choice(['একই(গ)', '(গ)', 'ক[১]', 'গ + []', '[] + গ']), rng.choice(['চ', '[]', '[%s]' % v])), '_লিস্ট-পুশ(ঝ, %s);' % v, 'দেখাও ঝ;']
             lines.append('দেখাও [ক[০], ক[১], ক[৩]]; দেখাও ঘ["k"]; দেখাও [গ, চ, ছ, জ]; দেখাও [সং, সং২]; দেখাও শব২;')
         cases.append({'src': prog(lines), 'kind': 'alias'})
+    for src in P2.concat_fresh_programs(rng, 60 if tier != 'thorough' else 60):
+        cases.append({'src': src, 'kind': 'concat-fresh'})
+    for _ in range(10):
+        cases.append({'src': prog(['নাম ধরে = [[১], [২], [৩]];'] + P2.record_reuse_lines(rng) + P2.record_reuse_lines(rng)), 'kind': 'record-reuse'})
     return cases
 
 
@@ -429,6 +453,8 @@ def c16_cases(rng, tier):
             else: lines.append('_লিস্ট-পপ(%s);' % rng.choice(['"না"', '', 'ল, ০, ১']))
             lines.append('দেখাও ল; দেখাও _লিস্ট-লেন(ল২);')
         cases.append({'src': prog(lines), 'kind': 'listops', 'keep_going': True})
+    for src in P2.concat_fresh_programs(rng, 60):
+        cases.append({'src': src, 'kind': 'concat-fresh'})
     return cases
 
 
@@ -458,6 +484,12 @@ def c17_cases(rng, tier):
             lit = '[' + ', '.join('"%s"' % x for x in l) + ']'
             cases.append({'src': prog(['নাম জোড়া = _স্ট্রিং-জয়েন(%s, "%s");' % (lit, sep), 'দেখাও জোড়া;', 'দেখাও _স্ট্রিং-স্প্লিট(জোড়া, "%s");' % sep]),
                           'kind': 'join', 'list': l, 'sep': sep})
+    for l in lists[:40]:
+        lit = '[' + ', '.join('"%s"' % x for x in l) + ']'
+        cases.append({'src': prog(['নাম তা = %s;' % lit, 'নাম তা২ = তা;', 'দেখাও _স্ট্রিং-জয়েন(তা, ",");', 'দেখাও তা;', 'দেখাও _স্ট্রিং-জয়েন(তা২, "-");', 'দেখাও _লিস্ট-লেন(তা);',
+                                   'দেখাও _স্ট্রিং-স্প্লিট(_স্ট্রিং-জয়েন(তা, "|"), "|");', 'দেখাও তা২;']), 'kind': 'join-reuse'})
+    for s_, sep in [('ক।', '।'), ('।', '।'), ('ক।।খ', '।।'), ('কখ', 'কখগ'), ('অ', 'অআ'), ('ক খ', ' '), ('এক—দুই', '—'), ('😀a😀', '😀')]:
+        cases.append({'src': prog(['নাম ভাগ = _স্ট্রিং-স্প্লিট("%s", "%s");' % (s_, sep), 'দেখাও ভাগ;', 'দেখাও _লিস্ট-লেন(ভাগ);', 'দেখাও _স্ট্রিং-জয়েন(ভাগ, "%s");' % sep]), 'kind': 'split', 's': s_, 'sep': sep})
     for e in ['১', '"a"', 'সত্য', '[১]', '@{}', 'শূ', 'ফ', '_টাইপ(১)']:
         cases.append({'src': prog(['নাম শূ;', 'ফাং ফ() {', '} ফেরত;', 'দেখাও _টাইপ(%s);' % e]), 'kind': 'type'})
     for bad in ['_টাইপ()', '_টাইপ(১, ২)', '_স্ট্রিং-স্প্লিট("a")', '_স্ট্রিং-স্প্লিট("a", ১)', '_স্ট্রিং-স্প্লিট(১, "a")', '_স্ট্রিং-জয়েন(["a"])', '_স্ট্রিং-জয়েন(["a", ১], ",")', '_স্ট্রিং-জয়েন("a", ",")', '_স্ট্রিং-জয়েন(["a"], ১)', '_স্ট্রিং-স্প্লিট("a", "b", "c")']:
@@ -474,7 +506,7 @@ def c18_cases(rng, tier):
         k = rng.random()
         if d >= 4 or k < 0.35: return rng.choice(scal)
         if k < 0.7: return '[' + ', '.join(val(d + 1) for _ in range(rng.randint(0, 3))) + ']'
-        keys = rng.sample(['"ক"', '"খ"', '"গ"'], rng.randint(0, 3))
+        keys = rng.sample(['"ক"', '"খ"', '"গ"', '"নাম"', '"বয়স"', '"a\\b"', '"ট্যাব\tএখানে"', '"k q"', '"\'"'], rng.randint(0, 3))
         return '@{' + ' '.join('%s -> %s,' % (k_, val(d + 1)) for k_ in keys) + '}'
     for _ in range(n):
         lines = ['নাম ভাগা = [১, "দুই"];', 'নাম রে = @{"ক" -> ১,};']
@@ -502,7 +534,7 @@ FAULTS = [('type', '১ + "a"'), ('type', '"a" * ২'), ('type', '-"a"'), ('type
 def c13_cases(rng, tier):
     cases = []
     pre = ['নাম তা = [১, ২];', 'নাম রে = @{"k" -> ১,};', 'নাম শূ;', 'দেখাও "আগে";']
-    shapes = ['print', 'printn', 'decl', 'assign', 'exprstmt', 'cond', 'elsecond', 'ret', 'arg', 'index', 'listlit', 'reclit', 'idxassign', 'operand']
+    shapes = ['print', 'printn', 'decl', 'assign', 'exprstmt', 'cond', 'elsecond', 'ret', 'arg', 'index', 'listlit', 'reclit', 'reckey', 'recnested', 'idxassign', 'idxassign2', 'operand', 'callarg', 'unary']
     depths = [0, 1, 2, 3]
     combos = [(f, s, d, m) for f in FAULTS for s in shapes for d in depths for m in (False, True)]
     if tier != 'thorough': combos = rng.sample(combos, 400)
@@ -521,8 +553,13 @@ def c13_cases(rng, tier):
         elif shape == 'listlit': st = ['দেখাও [১,', '    %s, ৩];' % fe]
         elif shape == 'reclit': st = ['দেখাও @{"a" -> %s,};' % fe]
         elif shape == 'idxassign': st = ['তা[%s] = ১;' % fe]
+        elif shape == 'reckey': st = ['নাম ন = @{"a" -> ১, %s -> ২,};' % fe, 'দেখাও ন;']
+        elif shape == 'recnested': st = ['নাম ন = [@{"a" -> [%s],}];' % fe, 'দেখাও ন;']
+        elif shape == 'idxassign2': st = ['তা[০] = %s;' % fe, 'দেখাও তা;']
+        elif shape == 'callarg': st = ['ফাং নফ(ক, খ) {', '    দেখাও "নফ";', '    ফেরত ক;', '} ফেরত;', 'দেখাও নফ(১, %s);' % fe]
+        elif shape == 'unary': st = ['দেখাও -(%s);' % fe]
         else: st = ['দেখাও ১ + (২ * %s);' % fe]
-        if fk == 'print' and shape not in ('print', 'printn', 'listlit', 'reclit'): continue
+        if fk == 'print' and shape not in ('print', 'printn', 'listlit', 'reclit', 'recnested'): continue
         body = st
         for d in range(depth):
             body = ['ফাং স্তর%s() {' % bn(d)] + ind(['দেখাও "স্তর%s";' % bn(d)] + body + ['দেখাও "ফিরে";']) + ['} ফেরত;', 'স্তর%s();' % bn(d)]
@@ -609,6 +646,9 @@ def c07_programs(rng, tier):
                                      'নাম ফল%s = [[১, ২], বড়(%s), @{"x" -> [৩],}];' % (N, N), 'দেখাও জোড়া(@{"r" -> [১, ২],}, বড়(%s))[০]["r"];' % N, 'বড়(%s);' % N]))
             lines.append('দেখাও ধরা;')
         cases.append({'src': prog(lines), 'kind': 'gc-midexpr', 'budget': 20000})
+    cases += P2.shadow_gc_programs(rng, 30 if tier != 'thorough' else 200)
+    for _ in range(6):
+        cases.append({'src': prog(['নাম ধরে = [[১], [২], [৩]];'] + P2.record_reuse_lines(rng) + P2.record_reuse_lines(rng)), 'kind': 'record-reuse'})
     return cases
 
 
@@ -658,6 +698,21 @@ def c09_literal_cases(rng, tier):
              '৫ % ৩', '-৫ % ৩', '৫.৫ % ২', '১ / ১০০০০০০০', '১২৩৪৫৬৭৮৯ * ১২৩৪৫৬৭৮৯', '০ * -১', '১ - ০.৯']
     for a in arith:
         cases.append({'src': prog(['নাম ক = %s;' % a, 'দেখাও _স্ট্রিং(ক);', 'দেখাও _সংখ্যা(_স্ট্রিং(ক)) == ক;', 'দেখাও ক;']), 'kind': 'arith'})
+    # sequences: the text of a number does not depend on what was printed before it (equal-comparing values with
+    # different texts: the two zeros; neighbours in magnitude)
+    pool = ['০', '-০', '০ * -১', '০.০', '১', '১.০', '০.১ + ০.২', '০.৩', '১ / ৩', '০.৩৩৩৩৩৩৩৩৩৩৩৩৩৩৩৩', '৯০০৭১৯৯২৫৪৭৪০৯৯২', '৯০০৭১৯৯২৫৪৭৪০৯৯৩', '-১', '১০০', '১০০.০০']
+    for _ in range(60 if tier != 'thorough' else 600):
+        k = rng.randint(2, 6)
+        xs = [rng.choice(pool) for _ in range(k)]
+        lines = []
+        for x in xs:
+            lines.append(rng.choice(['দেখাও %s;', '_দেখাও %s;', 'দেখাও _স্ট্রিং(%s);', 'দেখাও [%s];']) % x)
+        lines.append('দেখাও [%s];' % ', '.join(xs))
+        lines.append('দেখাও @{"k" -> %s,};' % xs[0])
+        cases.append({'src': prog(lines), 'kind': 'sequence'})
+    # subnormal and extreme values through text
+    for e in ['১ / ১' + '০' * 310, '৪.৯ / ১' + '০' * 324, '২.২২৫০৭৩৮৫৮৫০৭২০১৪ / ১' + '০' * 308, '২.২২৫ / ১' + '০' * 308, '১.৭৯৭৬৯৩১৩৪৮৬২৩১৫৭ * ১' + '০' * 308]:
+        cases.append({'src': prog(['নাম ক = %s;' % e, 'দেখাও _স্ট্রিং(ক);', 'দেখাও _সংখ্যা(_স্ট্রিং(ক)) == ক;', 'দেখাও ক;']), 'kind': 'arith'})
     return cases
 
 
@@ -701,7 +756,7 @@ def c14_cases(rng, tier):
         datafiles = [('app/root.txt', 'মূল তথ্য')]
         dirof = lambda p: 'app/' + (p.rsplit('/', 1)[0] + '/' if '/' in p else '')
         main_lines = ['নাম মান = ১;', 'ফাং দেখ() {', '    ফেরত "মূল";', '} ফেরত;']
-        aliases = rng.sample(['ক', 'খ', 'গণিত', 'মান'], nm)
+        aliases = rng.sample(['ক', 'খ', 'গণিত', 'মান', 'জ্যা/বর্গ'], nm)
         paths = rng.sample(['a.pakhi', 'lib/b.pakhi', 'lib/deep/c.pakhi', 'x/মডিউল.pakhi'], nm)
         for i in range(nm):
             body = ['নাম মান = %s;' % bn((i + 2) * 10), 'নাম তালিকা = [মান];', 'ফাং দেখ() {', '    ফেরত "মড%s" + _স্ট্রিং(মান);' % bn(i), '} ফেরত;',
@@ -709,10 +764,15 @@ def c14_cases(rng, tier):
             if rng.random() < 0.7:
                 body.append('দেখাও _রিড-ফাইল(_ডাইরেক্টরি + "data%s.txt");' % bn(i))
                 datafiles.append((dirof(paths[i]) + 'data%s.txt' % bn(i), 'তথ্য %s' % bn(i)))
-            if i + 1 < nm and rng.random() < 0.5:
-                body.insert(0, 'মডিউল ভিতর = "%s";' % paths[i + 1])
-                body.append('দেখাও ভিতর/দেখ();')
-                body.append('দেখাও ভিতর/মান;')
+            if i + 1 < nm and rng.random() < 0.6:
+                # the inner alias may repeat the alias this module is imported under (names become ক/ক/...)
+                inner = rng.choice(['ভিতর', aliases[i], aliases[i]])
+                body.insert(0, 'মডিউল %s = "%s";' % (inner, paths[i + 1]))
+                body.append('দেখাও %s/দেখ();' % inner)
+                body.append('দেখাও %s/মান;' % inner)
+                body.append('দেখাও %s/বাড়াও();' % inner)
+                body.append('দেখাও [মান, %s/মান];' % inner)
+                body.append('দেখাও দেখ();')
             mods.append(('app/' + paths[i], prog(body)))
         for i in range(nm):
             main_lines.append('মডিউল %s = "%s";' % (aliases[i], paths[i]))
@@ -766,9 +826,12 @@ def c19_cases(rng, tier):
         ['নাম দ্বিম = [];', 'নাম দ্বিই = ০;', 'লুপ {', '    যদি দ্বিই >= ৬০ {', '        থামাও;', '    }', '    _লিস্ট-পুশ(দ্বিম, [দ্বিই]);', '    দ্বিই = দ্বিই + ১;', '} আবার;', 'নাম দ্বিভুল = ০;', 'দ্বিই = ০;', 'লুপ {', '    যদি দ্বিই >= ৬০ {', '        থামাও;', '    }',
          '    যদি দ্বিম[দ্বিই][০] != দ্বিই {', '        দ্বিভুল = দ্বিভুল + ১;', '    }', '    দ্বিই = দ্বিই + ১;', '} আবার;', 'দেখাও দ্বিভুল;', 'নাম দ্বির = @{"ক" -> ১,};', 'নাম দ্বির২ = @{"খ" -> ২,};', 'নাম দ্বির৩ = @{"গ" -> ৩,};', 'দেখাও দ্বির["ক"];', 'দেখাও দ্বির২["খ"];', 'দেখাও দ্বির৩["গ"];'],
     ]
+    p1_pool.append(P2.record_churn_p1())
+    for c in P2.callee_alloc_programs()[:3]:
+        p2_fixed.append([l.replace('ব্যস্ত', 'দ্বিব্যস্ত').replace('প্রথম', 'দ্বিপ্রথম').replace('বানাও', 'দ্বিবানাও') for l in c['src'].rstrip('\n').split('\n')])
     for a in p1_pool:
         for b in p2_fixed:
-            cases.append({'p1': prog(a), 'p2': prog(b), 'kind': 'compose'})
+            cases.append({'p1': prog(a), 'p2': prog(b), 'kind': 'compose', 'budget': 200000})
     for _ in range(n):
         p1 = []
         for _ in range(rng.randint(1, 3)): p1 += rng.choice(p1_pool)
@@ -794,7 +857,7 @@ def c20_cases(rng, tier):
         valid = rng.random() < 0.75
         def parent_ok(p): return '/' not in p or p.rsplit('/', 1)[0] in dirs
         for _ in range(rng.randint(2, 14)):
-            allp = ['f.txt', 'g.txt', 'd/g.txt', 'd/e/h.txt', 'নথি.txt', 'd/নথি২.txt']
+            allp = ['f.txt', 'g.txt', 'd/g.txt', 'd/e/h.txt', 'নথি.txt', 'd/নথি২.txt', 'f.tmp', 'd/g.tmp', 'f', 'd/g.txt.bak']
             k = rng.random()
             if k < 0.3:
                 cand = [p for p in allp if parent_ok(p) and p not in dirs] if valid else allp + ['d', 'missing/x.txt', 'f.txt/x']
